@@ -34,6 +34,8 @@ def render(inst):
     def sep():
         if not ws:
             return ' '
+        if ws % 29 == 0:     # anything str.split() treats as whitespace
+            return r.choice([' ', '\t', '\x0c', '\x0b', ' \x1c', '\x85 '])
         return r.choice([' ', ' ', '  ', '\t', '   '])
 
     def line(fields, lst):
@@ -129,7 +131,8 @@ def gen_instance(rng, sw=None, thorough=False):
     n1 = rng.randint(1, 5 if thorough else 4)
     n2 = rng.randint(1, 4)
     shape = sw.get('shape') or rng.choice(
-        ['small'] * 16 + ['many-projects', 'many-students', 'wide-both'])
+        ['small'] * 40 + ['many-projects', 'many-students', 'wide-both',
+                          'long-lists', 'high-ids'])
     if shape == 'many-projects':       # two-digit project / lecturer ids
         n2 = rng.randint(9, 12)
     n3 = rng.randint(1, 3) if na == 3 else n2
@@ -138,9 +141,26 @@ def gen_instance(rng, sw=None, thorough=False):
     if shape == 'many-students':       # two-digit student ids, short lists
         n1 = rng.randint(8, 13)
     if shape == 'wide-both':           # two-digit ids on both sides
-        n1 = rng.randint(11, 13)
+        n1 = rng.randint(11, 12)
         n2 = rng.randint(11, 13)
         n3 = rng.randint(1, 3) if na == 3 else n2
+    if shape == 'long-lists':          # one to three students, 10-18 choices
+        n1 = rng.randint(1, 3)
+        n2 = rng.randint(10, 18)
+        n3 = rng.randint(1, 3) if na == 3 else n2
+    if shape == 'high-ids':            # ids beyond 256 with few real choices
+        n1 = rng.randint(1, 4)
+        if na == 3 and rng.random() < 0.5:
+            n2 = rng.randint(1, 4)
+            n3 = rng.randint(257, 300)
+        else:
+            n2 = rng.randint(257, 320)
+            n3 = rng.randint(1, 3) if na == 3 else n2
+    if shape == 'boundary':            # real-CBC lane: sizes around 2^k, 10^k
+        n1 = rng.choice([63, 64, 65, 66, 99, 100, 101, 127, 128, 129, 130] +
+                        ([255, 256, 257, 258] if thorough else []))
+        n2 = rng.randint(1, 3)
+        n3 = rng.randint(1, 2) if na == 3 else n2
     if shape == 'big':                 # real-CBC lane at scale, no enumeration
         n1 = rng.randint(10, 24) if rng.random() < 0.75 else \
             rng.randint(25, 40)
@@ -149,6 +169,8 @@ def gen_instance(rng, sw=None, thorough=False):
     ties1 = sw.get('ties1', rng.choice([0, 0, .3, .7, 1]))
     ties2 = sw.get('ties2', rng.choice([0, 0, .3, .7, 1]))
     maxlen = min(n2, 5 if shape == 'big' else 3)
+    if shape == 'long-lists':
+        maxlen = n2 if n1 == 1 else (min(n2, 16) if n1 == 2 else 10)
     students = []
     for i in range(n1):
         k = rng.randint(0 if rng.random() < 0.25 else 1, maxlen)
@@ -156,7 +178,17 @@ def gen_instance(rng, sw=None, thorough=False):
             k = min(k, 1)              # keeps the assignment space <= 2^12
         elif shape == 'many-projects':
             k = min(k, 2) if n1 > 3 else k
-        pl = rng.sample(range(1, n2 + 1), k)
+        if shape == 'long-lists' and i == 0:
+            k = rng.randint(max(1, maxlen - 4), maxlen)   # at least one long
+        if shape == 'high-ids':
+            # prefer the highest-numbered projects
+            pool = list(range(max(1, n2 - 3), n2 + 1))
+            pl = rng.sample(pool, min(k, len(pool)))
+        elif shape == 'boundary':
+            pl = [1] + rng.sample(range(2, n2 + 1), min(max(k - 1, 0),
+                                                        n2 - 1))
+        else:
+            pl = rng.sample(range(1, n2 + 1), k)
         students.append(_tie_groups(pl, ties1, rng))
     if not any(students):
         students[rng.randrange(n1)] = [[rng.randint(1, n2)]]
@@ -164,7 +196,7 @@ def gen_instance(rng, sw=None, thorough=False):
     lowq = sw.get('lowq', rng.random() < 0.4)
     # with many students, capacities sometimes scale with them, so that one
     # project / lecturer can hold many assignees (long listing lines)
-    roomy = n1 >= 8 and rng.random() < 0.5
+    roomy = (n1 >= 8 and rng.random() < 0.5) or shape == 'boundary'
     pcap = max(3, n1) if roomy else 3
     lcap = max(4, n1) if roomy else 4
     projects = []
@@ -172,6 +204,8 @@ def gen_instance(rng, sw=None, thorough=False):
         uq = rng.randint(0 if zero_cap and rng.random() < 0.4 else 1, pcap)
         lq = rng.randint(0, uq) if lowq and rng.random() < 0.5 else 0
         lec = rng.randint(1, n3) if na == 3 else j + 1
+        if shape == 'high-ids' and na == 3 and n3 > 256:
+            lec = rng.randint(n3 - 2, n3)
         projects.append({'lq': lq, 'uq': uq, 'lec': lec})
     lecturers = []
     if na == 3:
